@@ -419,6 +419,15 @@ def opIntersect (j : Json) : Except String Json := do
   pure (Json.mkObj [("hit", Json.arr res.toArray)])
 
 
+/-- exact clip fractions: each case is `[pxn, pxd, pyn, pyd, dxn, dxd, dyn, dyd]` (numerators / denominators) -/
+def opClipfrac (j : Json) : Except String Json := do
+  let cases ← listOf ints (← field j "cases")
+  let res := cases.map fun c =>
+    let q (i : Nat) : Rat := mkRat (c.getD (2 * i) 0) (c.getD (2 * i + 1) 1).toNat
+    let f := Plot.frac (q 0, q 1) (q 2, q 3)
+    jints [f.num, (f.den : Int)]
+  pure (Json.mkObj [("frac", Json.arr res.toArray)])
+
 /-- `_broadcast_args` on a batch of (N, subset, argument) cases; the argument is a scalar (`x`) or an array (`xs`) -/
 def opBroadcast (j : Json) : Except String Json := do
   let cases ← listOf (fun c => do
@@ -471,6 +480,7 @@ def dispatch (op : String) (j : Json) : Except String Json :=
   | "voro" => opVoro j
   | "intersect" => opIntersect j
   | "broadcast" => opBroadcast j
+  | "clipfrac" => opClipfrac j
   | "quasi" => opQuasi j
   | "truncate" => opTruncate j
   | "metric" => opMetric j
